@@ -40,6 +40,10 @@ fn main() {
         "c16" => misc::run_c16(&args, &tier, seed),
         "c17" => misc::run_c17(&args, &tier, seed),
         "c19" => misc::run_c19(&args, &tier, seed),
+        "floodgen" => {
+            misc::run_floodgen(&args);
+            return;
+        }
         "cost" => {
             misc::run_cost(&args);
             return;
